@@ -1055,6 +1055,11 @@ func isResultOf(e ast.Expr) bool {
 func (x *Unit) calleeResultType(e ast.Expr, idx int, c *specCtx) types.Type {
 	var fn *types.Func
 	switch f := e.(type) {
+	case *ast.UnaryExpr:
+		if f.Op == token.ARROW && idx == 1 {
+			return boolT // v, ok := <-ch
+		}
+		return nil
 	case *ast.Ident:
 		if c.pkg != nil {
 			fn, _ = c.pkg.Scope().Lookup(f.Name).(*types.Func)
